@@ -1,0 +1,21 @@
+//go:build verif
+
+package core
+
+import (
+	"github.com/AliceO2Group/Control/core/environment"
+	"github.com/AliceO2Group/Control/core/task"
+)
+
+// VerifNewCore builds the global state (task manager + environment manager) and an RpcServer
+// on top of it exactly as Run/NewServer do, without network listeners.
+func VerifNewCore(shutdown func()) (*RpcServer, *task.Manager, *environment.Manager, error) {
+	state, err := newGlobalState(shutdown)
+	if err != nil {
+		return nil, nil, nil, err
+	}
+	return &RpcServer{
+		state:      state,
+		envStreams: newSafeStreamsMap(),
+	}, state.taskman, state.environments, nil
+}
